@@ -21,7 +21,7 @@
 
   Observations, outside the property text (real behaviour, reproduced by the
   harness, consistent with the model; on record, not claimed as defects):
-  * an encryption whose INPUT cannot be read leaves a partial output behind:
+  * an encryption whose INPUT cannot be read leaves an incomplete output behind:
     `age -r KEY -o out somedir` exits 1 and `out` holds the header only; likewise
     `age-keygen -y -o new bad-input` exits 1 and leaves an empty `new` (mode 0600),
     because age-keygen opens its output before it reads its input;
